@@ -1013,6 +1013,19 @@ def rule_counters(m, rep, only=None):
         okdir = bool(dirs) and all(a_ == 'S' and c_ == 'D' for a_, c_, _ in dirs)
         rep.ob('C15-R4', 'queued-is-submitted-minus-drained', okdir, b.where(dirs[0][2]) if dirs else b.where(),
                'the difference is taken as submitted - drained' if okdir else 'the difference is taken as %s' % ['%s - %s' % (a_, c_) for a_, c_, _ in dirs])
+        # whatever queued() returns is that difference or the constant 0 (`else { 1 }` is neither)
+        def _is_diff(x):
+            x = norm(x)
+            if x[0] == 'field' and str(x[2]) == '0' and x[1][0] == 'bin':
+                x = x[1]
+            if x[0] == 'bin' and x[1] in ('Sub', 'SubWithOverflow', 'SubUnchecked'):
+                return True
+            return x[0] == 'call' and isinstance(x[1], str) and x[1].rsplit('::', 1)[-1] in ('saturating_sub', 'wrapping_sub')
+        leaves = [x for r_ in ret_terms(T, [0]) for x in flatten_phi(norm(r_))]
+        odd = [x for x in leaves if not (_is_diff(x) or (x[0] == 'const' and str(x[2]) == '0') or
+                                         (x[0] == 'call' and isinstance(x[1], str) and x[1].endswith('::unwrap_or') ))]
+        rep.ob('C15-R4', 'queued-returns-difference-or-zero', not odd, b.where(),
+               'queued() returns submitted - drained or 0' if not odd else 'queued() can also return %s' % [fmt(x)[:60] for x in odd[:3]])
         # uses the two counters
         loads = [norm(T.call_term(bi)) for bi, t in b.calls() if callee_is(t, 'core::sync::atomic::Atomic::load')]
         names_ = sorted(set(atom(x)[0] for x in loads if atom(x)))
